@@ -66,8 +66,8 @@ func newAPI(t testing.TB, alerts *mem.Alerts) *apiv2.API {
 	return api
 }
 
-// postAlert sends one alert through the real POST handler; ends zero = no endsAt (handler applies resolve_timeout).
-func postAlert(api *apiv2.API, ls model.LabelSet, tag int, ends time.Time) int {
+// postAlert sends one alert through the real POST handler (ctx = the request context, possibly cancelled); ends zero = no endsAt (handler applies resolve_timeout).
+func postAlert(ctx context.Context, api *apiv2.API, ls model.LabelSet, tag int, ends time.Time) int {
 	labels := open_api_models.LabelSet{}
 	for k, v := range ls {
 		labels[string(k)] = string(v)
@@ -79,9 +79,23 @@ func postAlert(api *apiv2.API, ls model.LabelSet, tag int, ends time.Time) int {
 	if !ends.IsZero() {
 		pa.EndsAt = strfmt.DateTime(ends)
 	}
-	req := httptest.NewRequest("POST", "/api/v2/alerts", nil)
+	req := httptest.NewRequest("POST", "/api/v2/alerts", nil).WithContext(ctx)
 	resp := api.VerifPostAlerts(alert_ops.PostAlertsParams{HTTPRequest: req, Alerts: open_api_models.PostableAlerts{pa}})
 	w := httptest.NewRecorder()
 	resp.WriteResponse(w, runtime.JSONProducer())
 	return w.Code
+}
+
+// submitCtx: the context of one submission. "" = live; "pre" = already cancelled when the call starts (client gone);
+// "mid" = cancelled concurrently with the call. The provider's contract does not depend on it: an update that the
+// provider stores reaches every subscriber; if Put refuses (returns an error) nothing may have been stored.
+func submitCtx(kind string) (context.Context, context.CancelFunc) {
+	ctx, cancel := context.WithCancel(context.Background())
+	switch kind {
+	case "pre":
+		cancel()
+	case "mid":
+		go cancel()
+	}
+	return ctx, cancel
 }
